@@ -121,7 +121,7 @@ def run(ctx):
             if i < 2:
                 ctx.sample({"program": prog})
         # spec -> code: the sessions TLC explores on the model's universe, each call on the interpreter and on the compiled instance
-        uprogs, ukw, sessions, _ = speccode.explore(ctx, focus="all", part=speccode.part_of(ctx, 8 if quick else 16))
+        uprogs, ukw, sessions, _ = speccode.explore(ctx, focus="all", part=speccode.part_of(ctx, 24 if quick else 32))
         comps = {}
         def on(camp, prog, con, s, idx):
             key = s["pi"]
